@@ -20,6 +20,11 @@ VOCAB = ["def", "fin", "if", "then", "else", "match", "while", "for", "in", "do"
          "x", "1", '"s"', "(", ")", ":", ":=", ",", "+", "=>"]
 
 
+# every operator-like token of the language: used to replace each operator occurrence by every other operator
+OPS = ["+", "-", "*", "/", "//", "^", "mod", "=", "!=", "<", "<=", ">", ">=", "<<", ">>", "and", "or", "not", "is", "isnt", "isa", "isna", "in", "?",
+       ":=", "+=", "-=", "*=", "/=", "^=", "<<=", ">>=", "..", "..=", "->", "=>", "_and_", "_or_", "_xor_", "_not_", "sqrt"]
+
+
 def tokenize(src):
     """list of (kind, text); concatenation of texts == src"""
     return [(m.lastgroup, m.group()) for m in TOKEN_RE.finditer(src)]
@@ -47,6 +52,10 @@ def single_mutations(src, vocab=VOCAB, kinds=("delete", "duplicate", "swap", "re
                 sw = list(toks)
                 sw[i], sw[j] = sw[j], sw[i]
                 yield ("swap@%d:%s<>%s" % (n, t, toks[j][1]), join(sw))
+        if "op-replace" in kinds and t in OPS:
+            for v in OPS:
+                if v != t:
+                    yield ("op-replace@%d:%s->%s" % (n, t, v), join(toks[:i] + [("x", v)] + toks[i + 1:]))
         for v in vocab:
             if "replace" in kinds and v != t:
                 yield ("replace@%d:%s->%s" % (n, t, v), join(toks[:i] + [("x", v)] + toks[i + 1:]))
